@@ -21,6 +21,7 @@ def dispatch (line : String) : String :=
   | "header" :: args => Driver.RenderD.handleHeader args
   | "snippet" :: args => Driver.RenderD.handleSnippet args
   | "sanitize" :: args => Driver.RenderD.handleSanitize args
+  | "exproffsets" :: args => Driver.RenderD.handleExprOffsets args
   | "proctrace" :: args => Driver.ProcD.handle args
   | "shell" :: args => Driver.ProcD.handleShell args
   | _ => "bad-op"
